@@ -6,7 +6,7 @@
    the repair ([process_object false]) violated the statement. *)
 From Coq Require Import List Arith.
 Import ListNotations.
-From NV Require Import Place.Policer Place.PolicerProofs.
+From NV Require Import Place.Policer Place.PolicerProofs Place.Repl Place.ReplProofs.
 
 (* Removal with the "redundant" mark of an object checked against the REP rules
    (whole objects; also an EC part in a container without EC rules): every
@@ -70,6 +70,22 @@ Theorem C26_replicator_bounded : forall e q nodes sends succ,
   /\ (forall n, In n succ -> e_rep e n = RStored /\ n <> e_local e)
   /\ (NoDup nodes -> NoDup succ).
 Proof. exact handle_task_spec. Qed.
+
+(* The same for every kind of task, including tasks that carry the object
+   (Task.SetObject) and list the LOCAL node among the targets: a successful local Put
+   consumes one unit of the quantity and is the only way the local node is reported. *)
+Theorem C26_replicator_bounded_any : forall e o q nodes sends succ,
+  handle_task_any e o q nodes = (sends, succ) ->
+  length succ <= q /\ incl succ nodes /\ incl sends nodes
+  /\ (forall n, In n succ ->
+        (n <> e_local e /\ In n sends /\ e_rep e n = RStored) \/ (n = e_local e /\ given_stored o))
+  /\ (NoDup nodes -> NoDup succ).
+Proof. exact handle_task_any_spec. Qed.
+
+Example C26_example_local_target :
+  handle_task_any (mkEnv 9 true (fun _ => false) (fun _ => NotFound) (fun _ => RStored) true)
+                  (ObjGiven true true) 2 [9; 1; 2] = ([1], [9; 1]).
+Proof. reflexivity. Qed.
 
 (* The code before the repair: nodes [A: not found; M: maintenance; Local],
    REP 1, replication to A fails -> local copy removed, nobody confirmed. *)
@@ -148,4 +164,5 @@ Print Assumptions C26_lock_link_never_dropped.
 Print Assumptions C26_ec_drop_safe.
 Print Assumptions C26_default_deletions_classified.
 Print Assumptions C26_replicator_bounded.
+Print Assumptions C26_replicator_bounded_any.
 Print Assumptions C26_unrepaired_refuted.
